@@ -77,8 +77,9 @@ CHECKS["C03"] = dict(
     text="TLC checks NoOversleep on every state (returned time = now whenever anything is runnable, else earliest due, else "
          "unbounded); the value returned by every real fibre_scheduler_next call in the replayed and random histories is "
          "compared with the specification's NextWakeup.",
-    note="Interrupt placements inside fibre_scheduler_next are explored by the FibreIrq part (see C06) when built; the "
-         "sequential part is claimed here.")
+    note="Interrupt part: FibreIrq.tla under the irq discipline (RetSeesCompleted action property; every placement of 2-3 "
+         "interrupt calls between the main context's atomic operations replayed on the real code, returned time compared). "
+         "Free-running threads are outside the property (a completed request can hide behind an unsent slot).")
 CHECKS["C10"] = dict(
     engine="tlc+replay+tracecheck", category=MC, design_ref="DESIGN.md section 4/C10",
     technique="TLA+ spec (MessageQSeq.tla: abstract window + implementation image with refinement invariant) model-checked "
@@ -192,6 +193,20 @@ CHECKS["C15"] = dict(
          "79-character limit, multi-line console_eval injections and up to 39 registrations.",
     note="Heap-allocated console_t under ASan observes writes outside the structure; a line starting with a blank names no "
          "command (named deviation, modelled as the code behaves).")
+CHECKS["C06"] = dict(
+    engine="tlc+vrt-replay+tracecheck", category=MC, design_ref="DESIGN.md section 4/C06",
+    technique="TLA+ spec (FibreIrq.tla: main context of fibre_scheduler_next at atomic-operation and slot-access grain, "
+              "interrupt-context fibre_run_atomic / fibre_eventq_claim+send) model-checked with TLC under irq nesting and free "
+              "threads; edge covers executed as schedules on the real fibre.c+messageq.c under vrt and validated by TLC against "
+              "TraceFibreIrq.tla; seeded random schedules with up to 11 interrupt calls",
+    text="TLC checks AcceptedIsQueuedOrPending (a request whose fibre_run_atomic returned true is an undrained slot, in the "
+         "drain loop's hand, or on the run queue until its fibre is dispatched), QueuesIntact and EventsExactlyOnceInOrder in "
+         "every interleaving of the bounded scenarios (event fibre, yielding fibre, sleeping fibre or lone yielder; 2-3 "
+         "interrupt calls placed between any two atomic operations or slot accesses of the main context); every transition is "
+         "executed on the compiled code and operation, results, run/timer queues and both queues' atomic state are compared.",
+    note="Fixed fibre bodies (the property's scenario); events are checked in claim order (messageq semantics); liveness is "
+         "covered as safety (nothing accepted is ever outside slot/hand/run queue) plus the exact dispatch behaviour of the "
+         "replayed passes, not as a TLC temporal property.")
 NOT_YET = "check not built yet (work in progress; planned per DESIGN.md section 4)"
 NA = {}
 
